@@ -158,6 +158,27 @@ Proof.
   destruct (hi_uniq _ _ _ _ _ _ _ HL i s1 s2 Hkq H1 H2 E1 E2 Hne) as [(_ & _ & A)|(_ & _ & A)]; congruence.
 Qed.
 
+(* at most one default transition is executed when a state is entered *)
+Lemma eh_dflt_fast_uniq i x y : In x (dflt_fast c ts i) -> In y (dflt_fast c ts i) -> x = y.
+Proof.
+  intros Hx Hy. unfold dflt_fast in Hx, Hy. apply filter_In in Hx as [Hx Hcx]. apply filter_In in Hy as [Hy Hcy].
+  apply andb_true_iff in Hcx as [Dx Px]. apply andb_true_iff in Hcy as [Dy Py].
+  destruct (eh_dflt_origin x Hx Dx) as (sx & rx & Ex & Psx & Tx & Sx).
+  destruct (eh_dflt_origin y Hy Dy) as (sy & ry & Ey & Psy & Ty & Sy).
+  rewrite Sx in Px. rewrite Sy in Py.
+  assert (Hpx : par sx = Some i) by (unfold par; destruct (fs_parent (st c sx)); [apply Nat.eqb_eq in Px; now subst | discriminate]).
+  assert (Hpy : par sy = Some i) by (unfold par; destruct (fs_parent (st c sy)); [apply Nat.eqb_eq in Py; now subst | discriminate]).
+  pose proof (eh_pseudo_child_uniq i sx sy Ex Ey Psx Psy Hpx Hpy) as E. rewrite E in Tx. rewrite Tx in Ty. now injection Ty.
+Qed.
+
+Lemma eh_dflt_fast_le1 i : length (dflt_fast c ts i) <= 1.
+Proof.
+  assert (Hnd : NoDup (dflt_fast c ts i)) by (unfold dflt_fast; apply NoDup_filter; exact (ssorted_NoDup _ (proj1 HT))).
+  pose proof (eh_dflt_fast_uniq i) as Hu.
+  destruct (dflt_fast c ts i) as [|a [|b r]]; cbn [length]; [lia | lia|]. exfalso.
+  assert (a = b) by (apply Hu; cbn; tauto). subst b. inversion Hnd as [|? ? Hn _]. apply Hn. now left.
+Qed.
+
 Theorem eh_dflt_eq i : dflt_fast c ts i = dflt_large c ts i.
 Proof.
   apply eh_single_eq.
@@ -169,14 +190,7 @@ Proof.
       destruct (is_pseudo (fs_type (st c a))); [|destruct Ha]. destruct (is_pseudo (fs_type (st c b))); [|destruct Hb].
       apply filter_In in Ha as [Ha _]. apply filter_In in Hb as [Hb _].
       rewrite <- (wh_tr_src c W a x Ha). exact (wh_tr_src c W b x Hb).
-  - intros x y Hx Hy. unfold dflt_fast in Hx, Hy. apply filter_In in Hx as [Hx Hcx]. apply filter_In in Hy as [Hy Hcy].
-    apply andb_true_iff in Hcx as [Dx Px]. apply andb_true_iff in Hcy as [Dy Py].
-    destruct (eh_dflt_origin x Hx Dx) as (sx & rx & Ex & Psx & Tx & Sx).
-    destruct (eh_dflt_origin y Hy Dy) as (sy & ry & Ey & Psy & Ty & Sy).
-    rewrite Sx in Px. rewrite Sy in Py.
-    assert (Hpx : par sx = Some i) by (unfold par; destruct (fs_parent (st c sx)); [apply Nat.eqb_eq in Px; now subst | discriminate]).
-    assert (Hpy : par sy = Some i) by (unfold par; destruct (fs_parent (st c sy)); [apply Nat.eqb_eq in Py; now subst | discriminate]).
-    pose proof (eh_pseudo_child_uniq i sx sy Ex Ey Psx Psy Hpx Hpy) as E. rewrite E in Tx. rewrite Tx in Ty. now injection Ty.
+  - exact (eh_dflt_fast_uniq i).
   - intros x. unfold dflt_fast, dflt_large. rewrite filter_In, in_flat_map. split.
     + intros [Hx Hc]. apply andb_true_iff in Hc as [Dx Px].
       destruct (eh_dflt_origin x Hx Dx) as (s & r & Es & Ps & Tx & Sx). rewrite Sx in Px.
